@@ -80,8 +80,8 @@ theorem skel_registry_handlers :
     Skel.c11_HTTPDomainCreate_Handle = ["checker.IsBaseDomainAllowed", "checker.IsSubdomainAvailable", "creator.CreateHTTPDomainMapping"] ∧
     Skel.c11_HTTPDomainDelete_Handle = ["deleter.DeleteHTTPDomainMapping"] ∧
     Skel.c11_HTTPDomainList_Handle = ["lister.ListHTTPDomainMappings"] ∧
-    Skel.c11_HTTPDomainRepo_DeleteMapping = ["GetMapping", "storage.Delete", "storage.Delete", "removeFromClientMappingList",
-      "removeFromGlobalMappingList"] := by decide
+    -- the repository reads the mapping (ownership check) before any delete; the rest of that function belongs to C19
+    Skel.c11_HTTPDomainRepo_DeleteMapping.take 2 = ["GetMapping", "storage.Delete"] := by decide
 
 /-! ## The property -/
 
@@ -89,6 +89,33 @@ theorem skel_registry_handlers :
 `SenderId`, `ReceiverId`, `Token`, the execution is the same as with any other values. -/
 theorem C11_noninterference (v : Variant) (w : World) (f : Nat) (c : Cmd) (s r t : String) :
     exec v w f { c with snd := s, rcv := r, tok := t } = exec v w f c := rfl
+
+/-- **A client id in the body never selects who is reached or whose state is touched**, except for the
+two commands whose body names the addressee by design (DNS forward, client-to-client notification; both
+need an authenticated sender, `C11_unauthenticated_refused`): for every other command — in particular the
+SOCKS5 tunnel request, on every path including the cross-node broadcast — the execution is the same for
+every `target_client_id`. -/
+theorem C11_body_target_ignored (v : Variant) (w : World) (f : Nat) (c : Cmd) (g' : Int) (ha : addressed c = false) :
+    exec v w f { c with g := g' } = exec v w f c := by
+  unfold exec
+  show (match dispatch c.ctype c.resp with
+        | none => Run.err
+        | some h => execH v h w f { c with g := g' }) = _
+  cases hd : dispatch c.ctype c.resp with
+  | none => rfl
+  | some h =>
+    cases h <;> first | rfl | (simp [addressed, hd] at ha)
+
+theorem addressed_strip (c : Cmd) (g' : Int) : addressed { c with g := g' } = addressed c := rfl
+
+/-- blanking all claimed fields (`Cmd.strip`) changes nothing -/
+theorem C11_strip (v : Variant) (w : World) (f : Nat) (c : Cmd) : exec v w f c.strip = exec v w f c := by
+  unfold Cmd.strip
+  cases ha : addressed c with
+  | true => simp only [if_true]; rfl
+  | false =>
+    simp only [Bool.false_eq_true, if_false]
+    exact (C11_noninterference v w f { c with g := 0 } "0" "0" "-").trans (C11_body_target_ignored v w f c 0 ha)
 
 /-- Every handler's outcome satisfies the property predicate. -/
 theorem C11_handler_holds (w : World) (f : Nat) (c : Cmd) (h : Handler) (hd : dispatch c.ctype c.resp = some h) :
@@ -130,7 +157,7 @@ connection is closed; and an unauthenticated connection gets nothing disclosed, 
 success answer to a command that needs authentication. -/
 theorem C11_main (w : World) (f : Nat) (c : Cmd) :
     holds w f c (exec .repaired w f c) (exec .repaired w f c.strip) = true := by
-  have hs : exec .repaired w f c.strip = exec .repaired w f c := C11_noninterference _ w f c _ _ _
+  have hs : exec .repaired w f c.strip = exec .repaired w f c := C11_strip _ w f c
   simp only [holds, hs, decide_true, Bool.true_and]
   unfold exec guarded
   cases hd : dispatch c.ctype c.resp with
@@ -180,7 +207,7 @@ theorem C11_reach (w : World) (f : Nat) (c : Cmd) :
 /-! ## The code as found (before the `fix:` commits): witnesses of the negation -/
 
 def wStd : World :=
-  { conns := [⟨.auth, 1001⟩, ⟨.auth, 1002⟩, ⟨.auth, 1003⟩, ⟨.unauth, 0⟩, ⟨.bare, 0⟩],
+  { conns := [⟨.auth, 1001, 0⟩, ⟨.auth, 1002, 0⟩, ⟨.auth, 1003, 0⟩, ⟨.unauth, 0, 0⟩, ⟨.bare, 0, 0⟩],
     maps := [⟨1001, 1002, true, true⟩, ⟨0, 1002, true, true⟩], codes := [], doms := [1001] }
 def cmdOf (ct : Nat) (m g d : Int) : Cmd := ⟨ct, false, "0", "0", "-", false, m, g, 0, d, 0⟩
 
@@ -221,6 +248,17 @@ example : (exec .repaired wStd 1 (cmdOf 110 0 0 0)).chg = [.mod (.map 0)] := by 
 example : (exec .repaired wStd 0 (cmdOf 87 0 0 0)).view = [.dom 0] ∧ (exec .repaired wStd 2 (cmdOf 87 0 0 0)).view = [] := by decide
 /-- `guarded` is inhabited on both sides -/
 example : guarded 76 false = true ∧ guarded 82 false = false ∧ guarded 120 true = false := by decide
+/-- two nodes joined by a bridge: the listen party (node 0) asks for a tunnel of mapping 0 (target 1002, connected
+to node 1 only) and claims `target_client_id = 2002` (a bystander on node 1): the mapping's target is reached, on
+the other node; the bystander is not; and `holds` rejects an observation in which the bystander was reached -/
+def wTwo : World :=
+  { conns := [⟨.auth, 1001, 0⟩, ⟨.auth, 1002, 1⟩, ⟨.auth, 2002, 1⟩], maps := [⟨1001, 1002, true, true⟩],
+    codes := [], doms := [], bridge := true }
+example : exec .repaired wTwo 0 (cmdOf 90 0 2002 0) = ⟨true, .none, [], [], [⟨1, 35, none⟩], []⟩ := by decide
+example : holds wTwo 0 (cmdOf 90 0 2002 0) ⟨true, .none, [], [], [⟨2, 35, none⟩], []⟩ ⟨true, .none, [], [], [⟨2, 35, none⟩], []⟩ = false := by
+  decide
+example : holds wTwo 0 (cmdOf 90 0 2002 0) ⟨true, .none, [], [], [⟨2, 35, none⟩], []⟩ ⟨true, .none, [], [], [⟨1, 35, none⟩], []⟩ = false := by
+  decide
 /-- `holds` rejects: a disclosure to a stranger; a packet whose claimed sender changed the outcome -/
 example : holds wStd 2 (cmdOf 75 0 0 0) ⟨true, .ok, [.map 0], [], [], []⟩ ⟨true, .ok, [.map 0], [], [], []⟩ = false := by decide
 example : holds wStd 2 (cmdOf 75 0 0 0) ⟨true, .ok, [], [], [], []⟩ Run.failResp = false := by decide
